@@ -709,6 +709,10 @@ func (s *Scheme) initializeThresholdSigning(membership *membership, parties []Pa
 }
 
 func (s *Scheme) setup() {
+	// Messages may be dispatched by HandleMessage() while the first KeyGen() or Sign() is setting us up
+	s.lock.Lock()
+	defer s.lock.Unlock()
+
 	s.syncsInProgress = make(map[string]func(uint16, []byte))
 	s.rbcInProgress = make(map[string]func(m RBCMessage, from uint16))
 	s.messageClassifiers = make(map[string]func([]byte) (uint8, bool, error))
